@@ -175,6 +175,17 @@ pub fn parse_direct(case: &Value) -> Result<(Query, String, J), Failure> {
     }
 }
 
+/// long lists of records under everyday queries (see `gen::gen_long_records`)
+fn random_long_record_lists(src: &mut Src, obs: &mut Obs) -> Res {
+    let (doc, text) = gen_long_records(src);
+    let q = match crate::recog::parse_ast(&text) {
+        Some(q) => q,
+        None => return Err(Failure::new("harness inconsistency: the long-list family produced a query outside the recogniser's language", json!({"query": text}))),
+    };
+    obs.label("long-record-list");
+    check(&q, &text, &doc, true, obs)
+}
+
 fn direct(case: &Value, obs: &mut Obs) -> Res {
     let (q, text, doc) = parse_direct(case)?;
     check(&q, &text, &doc, true, obs)
@@ -363,6 +374,7 @@ pub fn prop() -> Prop {
                     len: 1000,
                 },
             },
+            Sub { name: "random-long-record-lists", kind: Kind::Random { f: random_long_record_lists, quick: 2_400, thorough: 48_000, len: 20000 } },
             Sub { name: "random-regex-heavy", kind: Kind::Random { f: random_regex_heavy, quick: 48_000, thorough: 960_000, len: 1000 } },
             Sub { name: "random-wide-compare", kind: Kind::Random { f: random_wide_compare, quick: 8_000, thorough: 160_000, len: 900 } },
             Sub {
